@@ -113,6 +113,7 @@ def check(tier, seed, runs, workers, secs):
     deep = ["--deep"] if tier == "thorough" else []
     results, crashes = [], []
     skipped = [0]
+    one_cpu_runs = [0]
 
     def do(chunk):
         start, n = chunk
@@ -120,13 +121,17 @@ def check(tier, seed, runs, workers, secs):
             skipped[0] += 1
             return None
         out = os.path.join(work, "chunk-%d.json" % start)
-        rc, text = run_chunk(binary, ["run", "--seed", str(seed), "--start", str(start), "--count", str(n)] + V.hash_args(tier) + deep, out)
+        # every fourth worker process is bound to one CPU before it builds or compiles anything
+        one_cpu = ["--one-cpu"] if (start // max(1, cfg["chunk"])) % 4 == 3 else []
+        rc, text = run_chunk(binary, ["run", "--seed", str(seed), "--start", str(start), "--count", str(n)] + V.hash_args(tier) + deep + one_cpu, out)
         if rc != 0 or not os.path.exists(out):
             crashes.append(dict(start=start, count=n, rc=rc, output=text[-2000:]))
             return None
         with open(out) as f:
             d = json.load(f)
         os.remove(out)
+        if one_cpu:
+            one_cpu_runs[0] += n
         return d
 
     with ThreadPoolExecutor(max_workers=max(1, workers - 1)) as ex:
@@ -181,7 +186,7 @@ def check(tier, seed, runs, workers, secs):
         reproduced = r.returncode == 1 and "REPRODUCED EXACTLY" in r.stdout
         if r.returncode != 1:
             out = os.path.join(work, "confirm-%s.json" % v["run_index"])
-            rc, _ = run_chunk(binary, ["run", "--seed", str(seed), "--start", str(v["run_index"]), "--count", "1"] + deep, out)
+            rc, _ = run_chunk(binary, ["run", "--seed", str(seed), "--start", str(v["run_index"]), "--count", "1"] + deep + (["--one-cpu"] if v.get("one_cpu") else []), out)
             again = False
             try:
                 with open(out) as f:
@@ -227,7 +232,7 @@ def check(tier, seed, runs, workers, secs):
             "nontrivial_runs": nontrivial,
             "runs_per_hour": int(runs_done / sim_wall * 3600),
             "simulated_time": "logical steps only: %d scheduling decisions over %d intercepted memory accesses; the property involves no clock or timer" % (counters.get("scheduling_decisions", 0), counters.get("intercepted_accesses", 0)),
-            "fault_kinds_fired": {"preemption_at_memory_access (context switches)": counters.get("context_switches", 0), "preemption_inside_unlocked_rmw": counters.get("writer_inside_rmw_window", 0), "misaligned_atomic_add": counters.get("executions_with_misaligned_xadd", 0)},
+            "fault_kinds_fired": {"preemption_at_memory_access (context switches)": counters.get("context_switches", 0), "preemption_inside_unlocked_rmw": counters.get("writer_inside_rmw_window", 0), "misaligned_atomic_add": counters.get("executions_with_misaligned_xadd", 0), "worker_process_bound_to_one_cpu (simulations run there)": one_cpu_runs[0]},
             "reach_probes": counters,
             "locked_rmw_opcodes_seen_per_engine": locked,
             "violation_classes": vclasses,
